@@ -232,12 +232,42 @@ def fixture_read_oracle(name: str, tmp: Path) -> list:
                 for row in t.rows():
                     for cell in row:
                         _ = cell.style
+    except Exception:  # noqa: BLE001
+        # a source document whose styles cannot be read at all (e.g. a font missing from the library's font table
+        # raises KeyError in cell.style): C15 speaks of styles that are read back; nothing is decided on this document
+        return [("SKIP", "style-read-raises")]
+    try:
         d1.save(tmp / "fx_read.numbers")
     except Exception as e:  # noqa: BLE001
-        return [("reading-styles-breaks-save", f"{name}: reading every cell.style and then saving raised {type(e).__name__}: {e}")]
+        return [("reading-styles-breaks-save", f"{name}: after reading every cell.style, saving raised {type(e).__name__}: {e}")]
     a, b = style_objects(Document(tmp / "fx_plain.numbers")), style_objects(Document(tmp / "fx_read.numbers"))
     if a != b:
         return [("reading-changes-saved-styles", f"{name}: style archives {a} when saved untouched, {b} when saved after reading every cell.style")]
+    # nothing was styled: every cell (blank ones included) keeps its previous style, whether or not the saving document
+    # ever looked at it
+    def views(p):
+        out = {}
+        for si, s in enumerate(Document(p).sheets):
+            for ti, t in enumerate(s.tables):
+                for row in t.rows():
+                    for cell in row:
+                        if type(cell).__name__ == "ErrorCell":
+                            continue    # the library warns that it cannot write formula-error cells (saved as empty)
+                        try:
+                            out[(si, ti, cell.row, cell.col)] = observe_style(cell.style)
+                        except Exception as e:  # noqa: BLE001
+                            out[(si, ti, cell.row, cell.col)] = "!" + type(e).__name__
+        return out
+    ref = views(path)
+    for tag, p in (("untouched", tmp / "fx_plain.numbers"), ("after reading every cell.style", tmp / "fx_read.numbers")):
+        got = views(p)
+        if not set(ref) <= set(got):
+            return [("unstyled-cells-changed", f"{name}: saved {tag}: cells are missing")]
+        for k in ref:
+            if got[k] != ref[k]:
+                d = [a_ for a_ in ref[k] if got[k].get(a_) != ref[k][a_]] if isinstance(ref[k], dict) and isinstance(got[k], dict) else "raises"
+                return [("unstyled-cells-changed", f"{name}: saved {tag}: sheet {k[0]} table {k[1]} cell ({k[2]},{k[3]}) style differs in {d}: "
+                                                   f"{ref[k] if not isinstance(ref[k], dict) else {x: ref[k][x] for x in d}} -> {got[k] if not isinstance(got[k], dict) else {x: got[k][x] for x in d}}")]
     return []
 
 
@@ -352,6 +382,9 @@ def run_styles(ctx: Ctx, exe):
         except Exception:  # noqa: BLE001  unreadable fixtures are C17's
             continue
         for sig, detail in res:
+            if sig == "SKIP":
+                ctx.dist("fixture-style-read:skipped:" + detail)
+                continue
             ctx.oracle_fail(sig, {"kind": "fixture-style-read", "fixture": f}, detail)
 
 
@@ -369,7 +402,7 @@ def search_styles(ctx: Ctx) -> list:
 
 def replay_case(case: dict, tmp: Path) -> list:
     if case.get("kind") == "fixture-style-read":
-        return fixture_read_oracle(case["fixture"], tmp)
+        return [x for x in fixture_read_oracle(case["fixture"], tmp) if x[0] != "SKIP"]
     if case.get("kind") == "restyle":
         return restyle_oracle(case, tmp, "replay")
     return style_oracle(case, tmp, "replay")
